@@ -502,14 +502,14 @@ def run_miri(which, reqs, timeout=1500):
     """Returns {"ran": n, "ub": [text], "mismatch": [sig], "error": str|None}. Overflow panics under Miri's dev profile are
     reported as mismatches by the caller's policy (advisory); Undefined Behaviour aborts the interpreter and is a violation."""
     import os
-    from common import VERIF, BUILD, base_env
+    from common import VERIF, BUILD, base_env, crate_dir
     enc, chk = (enc_c04, check_c04) if which == "C04" else (enc_c05, check_c05)
     env = base_env()
     env["CARGO_TARGET_DIR"] = os.path.join(BUILD, "kernels-miri")
     env["MIRIFLAGS"] = "-Zmiri-disable-isolation"
     lines = [enc(r) for r in reqs]
     try:
-        p = subprocess.run(["cargo", "+nightly", "miri", "run", "--offline", "--quiet"], cwd=os.path.join(VERIF, "kernels"), env=env,
+        p = subprocess.run(["cargo", "+nightly", "miri", "run", "--offline", "--quiet"], cwd=crate_dir("kernels"), env=env,
                            input="\n".join(lines) + "\n", stdout=subprocess.PIPE, stderr=subprocess.PIPE, text=True, timeout=timeout)
     except subprocess.TimeoutExpired:
         return {"ran": 0, "ub": [], "mismatch": [], "error": "miri watchdog"}
